@@ -457,6 +457,13 @@ class Worker:
             # Perform a step of the task and get the future it awaits on
             future = task.step(self._get_desired_result(task))
 
+            if task.return_address not in self._tasks:
+                # The task was cancelled while this step was running; drop
+                # the mailboxes it opened after the cancel was handled.
+                for mailbox_id in task.owned_mailboxes:
+                    self._mailboxes.pop(mailbox_id, None)
+                return
+
             self._process_await(task, future)
 
         except StopIteration as e:
@@ -516,6 +523,8 @@ class Worker:
         if task.return_address not in self._tasks:
             # print(f'Task was cancelled: {task.return_address},
             # {task.fnargs[0].__name__}')
+            for mailbox_id in task.owned_mailboxes:
+                self._mailboxes.pop(mailbox_id, None)
             return
 
         if task.return_address.worker_id == self._id:
